@@ -284,7 +284,7 @@ fn check_request(ctx: &mut Ctx, out: &mut Outcome, src: &hpo::Ontology, pf: &cra
         let ra: Vec<u32> = a.terms.iter().map(|t| t.id).collect();
         let rb: Vec<u32> = b.terms.iter().map(|t| t.id).collect();
         if ra == rb {
-            for d in diff(a, b, IcCmp::Bits) {
+            for d in crate::obs::diff_opts(a, b, IcCmp::Bits, true) {
                 out.violate(P, format!("depends-on-hash-or-leaf-order:{}", class_of(&d)), format!("schedules {:?} vs {:?}: {} [{}] {} vs {}", variants[0].hash, variants[i].hash, d.field, d.key, crate::obs::clip(&d.a), crate::obs::clip(&d.b)));
             }
         } else {
